@@ -241,7 +241,12 @@ def seenOf {C : Type} (s : Plugin C × C) : Seen C := (s.1.id, s.2)
 /-- pkg/util/util `GenerateResponseErrorString(summary, err, detailed)`; `msg = err.Error()`.
     The result is written into LoginResp.Error / NewProxyResp.Error / Pong.Error /
     StartWorkConn.Error; the peer reads `""` as success. -/
-def respError (detailed : Bool) (summary msg : Str) : Str := if detailed then msg else summary
+def respError (detailed : Bool) (summary msg : Str) : Str :=
+  if detailed ∧ msg ≠ [] then msg else summary
+
+/-- the same function in the pinned tree c9fd674 (before /repo fix e4ec556): the error text was
+    copied even when empty -/
+def respErrorOld (detailed : Bool) (summary msg : Str) : Str := if detailed then msg else summary
 
 /-! ### close-proxy notifications at the call sites (server/control.go) -/
 
